@@ -160,8 +160,12 @@ def check(run):
         # compiled C++ step traces (always): ordinary times, and times well above 1 s with microsecond remainders
         cfails = 0
         cases = [(1, 1, 0.0, 0.23, 0.05), (0, 0, 5000.0, 5000.0 + 0.3 + 5e-7, 0.1), (1, 0, 86400.25, 86400.25 - 0.2 - 3e-6, 0.1), (0, 1, -5000.0, -5000.0 + 3e-6, 0.05)]
+        # spans that are decimal-exact multiples of a non-dyadic step (0.5 / 0.1: the rounded quotient is a whole number although 0.1 is a
+        # hair above 1/10), forwards and backwards, with and without control
+        cases += [(0, 0, 0.0, 0.5, 0.1), (0, 1, 0.0, -1.5, 0.05), (1, 0, 0.0, 1.0, 0.1), (0, 0, 2.0, 3.5, 0.01)]
         if run.tier == "thorough":
-            cases += [(1, 1, 86400.25, 86400.25 + 0.25 + 1.5e-8, 0.25), (0, 0, 5000.0, 5000.0 - 0.1 - 2e-9, 0.1), (0, 0, 1.0, 0.77, 0.05), (1, 0, 5000.0, 5000.0, 0.1)]
+            cases += [(1, 1, 0.0, -0.5, 0.1), (0, 1, 0.0, 1.5, 0.01), (1, 1, 10.0, 10.7, 0.1),
+                      (1, 1, 86400.25, 86400.25 + 0.25 + 1.5e-8, 0.25), (0, 0, 5000.0, 5000.0 - 0.1 - 2e-9, 0.1), (0, 0, 1.0, 0.77, 0.05), (1, 0, 5000.0, 5000.0, 0.1)]
         for hc, hk, t0, t1, mx in cases:
             run.native_runs += 1
             good, why, steps = cxx_runtime.native_c10(bool(hc), bool(hk), t0, t1, mx)
